@@ -412,3 +412,9 @@ B('C06.dispatch-status-request-side', ['C06'], [(P + 'tls/extension.py',
 N('benign.dispatch-shared-entries', [(P + 'tls/extension.py',
   "        return collections.OrderedDict([\n            (TlsExtensionType.APPLICATION_LAYER_PROTOCOL_NEGOTIATION,\n                [TlsExtensionApplicationLayerProtocolNegotiation, ]),\n            (TlsExtensionType.CHANNEL_ID, [TlsExtensionChannelId, ]),\n            (TlsExtensionType.EC_POINT_FORMATS, [TlsExtensionECPointFormats, ]),",
   "        return collections.OrderedDict([\n            (TlsExtensionType.APPLICATION_LAYER_PROTOCOL_NEGOTIATION,\n                [TlsExtensionApplicationLayerProtocolNegotiation, ]),\n        ] + [\n            (TlsExtensionType.CHANNEL_ID, [TlsExtensionChannelId, ]),\n            (TlsExtensionType.EC_POINT_FORMATS, [TlsExtensionECPointFormats, ]),")])
+# a constant written in place of an attribute for some of its values (no lower bound of validity composed as the epoch, not the sentinel)
+B('C11.constant-in-place-of-none', ['C11', 'C07', 'C01'], [(P + 'ssh/key.py', "        composer.compose_timestamp(self.valid_after)\n",
+  "        composer.compose_timestamp(datetime.datetime(1970, 1, 1) if self.valid_after is None else self.valid_after)\n")],
+  mention=['C11.R8', 'valid_after'])
+N('benign.validity-helper', [(P + 'ssh/key.py', "        composer.compose_timestamp(self.valid_after)\n        composer.compose_timestamp(self.valid_before)\n",
+  "        for moment in (self.valid_after, self.valid_before):\n            composer.compose_timestamp(moment)\n")])
